@@ -28,8 +28,26 @@ def run_pairs(cases, tmp, tag="p"):
     exe = compile_driver("drv_pair.cpp", "rel")
     rc, out = sh([exe, cf, of], check=False, timeout=7200)
     if rc != 0:
-        raise RuntimeError("drv_pair failed rc=%d: %s" % (rc, out[-2000:]))
+        # the implementation aborted (index assertion, crash): find the first case that does it, one process per case
+        culprit = None
+        done = set(read_blocks(of).keys()) if os.path.exists(of) else set()
+        for c in cases:
+            if c["id"] in done and len(done) > 1:
+                continue
+            c1 = os.path.join(tmp, tag + "_one.txt"); o1 = os.path.join(tmp, tag + "_one_out.txt")
+            gen.write_cases(c1, [c])
+            r1, out1 = sh([exe, c1, o1], check=False, timeout=600)
+            if r1 != 0:
+                culprit = (c, r1, out1[-1500:]); break
+        raise DriverAbort("drv_pair", rc, out[-2000:], culprit)
     return read_blocks(of), out
+
+
+class DriverAbort(RuntimeError):
+    """the implementation driver aborted; .culprit = (case, rc, message) of the first single case that reproduces it"""
+    def __init__(self, name, rc, out, culprit):
+        RuntimeError.__init__(self, "%s failed rc=%d: %s" % (name, rc, out))
+        self.culprit = culprit
 
 
 def run_spec(cases, tmp, tag="s"):
